@@ -395,8 +395,22 @@ func analyzeBounds(p *core.Prog, f *core.Func) []boundsSite {
 		return m
 	}
 	// lenMinus: expression is len(base) - k
-	lenMinus := func(e ast.Expr, base ast.Expr) (int64, bool) {
+	var lenMinus func(e ast.Expr, base ast.Expr) (int64, bool)
+	lenMinus = func(e ast.Expr, base ast.Expr) (int64, bool) {
 		e = core.Unparen(e)
+		// a local assigned once from len(base) - k (the slice itself is not re-sliced in between: it is assigned once too)
+		if id, ok := e.(*ast.Ident); ok {
+			if o, isV := info.ObjectOf(id).(*types.Var); isV && !o.IsField() {
+				if d := singleDef(f, o); d != nil {
+					if bo := core.ObjOf(info, base); bo != nil {
+						if _, isId := core.Unparen(base).(*ast.Ident); isId && (singleDef(f, bo) != nil || isParamOf(f, bo)) {
+							return lenMinus(d, base)
+						}
+					}
+				}
+			}
+			return 0, false
+		}
 		if c, ok := e.(*ast.CallExpr); ok && core.BuiltinName(info, c) == "len" && len(c.Args) == 1 && core.ExprStr(c.Args[0]) == core.ExprStr(base) {
 			return 0, true
 		}
@@ -747,6 +761,27 @@ func knownPositive(g *core.Graph, info *types.Info, n *core.GNode, bound ast.Exp
 		switch {
 		case op == token.GTR && c >= 0, op == token.GEQ && c >= 1:
 			return true
+		}
+	}
+	return false
+}
+
+func isParamOf(f *core.Func, o types.Object) bool {
+	for i := 0; f.ParamObj(i) != nil; i++ {
+		if types.Object(f.ParamObj(i)) == o {
+			// a parameter that is never reassigned
+			n := 0
+			ast.Inspect(f.Body, func(m ast.Node) bool {
+				if as, ok := m.(*ast.AssignStmt); ok {
+					for _, l := range as.Lhs {
+						if core.ObjOf(f.Pkg.TypesInfo, l) == o {
+							n++
+						}
+					}
+				}
+				return true
+			})
+			return n == 0
 		}
 	}
 	return false
